@@ -68,7 +68,12 @@ def ref_cases():
     F_LO, F_HI = ("La/Low;", "f", "I"), ("Lz/High;", "f", "I")
     M_LO, M_HI = ("La/Low;", "m", "V", ("I", "J")), ("Lz/High;", "m", "V", ())
     # 'AStr' / 'La/Low;' sort before the 300 padding entries (index < 256), 'zStr' / 'Lz/High;' / '[I' after them (index >= 256)
-    return [("string", "AStr", 1), ("string", "AStr", 2), ("string", "zStr", 2), ("string", "", 1),
+    # MID: entries that sit in the middle of the padding, i.e. whose pool index is in 128..255 and is written in ONE byte with the
+    # top bit set (an index is unsigned: a reader that sign-extends it lands on another entry); checked by mid_indices_ok()
+    F_MID, M_MID = ("Lm/T000;", "g150", "I"), ("Lm/T000;", "h150", "V", ())
+    mid = [("string", "Lm/T150;", 1), ("type", "Lm/T150;", 1), ("field", F_MID, 1), ("enum", F_MID, 1), ("method", M_MID, 1),
+           ("string", "Lm/T150;", 2), ("type", "Lm/T150;", 3), ("field", F_MID, 2), ("method", M_MID, 4)]
+    return mid + [("string", "AStr", 1), ("string", "AStr", 2), ("string", "zStr", 2), ("string", "", 1),
             ("type", "La/Low;", 1), ("type", "La/Low;", 2), ("type", "Lz/High;", 2), ("type", "[I", 2),
             ("field", F_LO, 1), ("field", F_LO, 2), ("field", F_HI, 2),
             ("enum", F_LO, 1), ("enum", F_HI, 2),
@@ -360,6 +365,18 @@ def judge_ftypes(order):
     return out
 
 
+def mid_indices_ok():
+    """-> None | message: the MID reference cases must really have pool indices in 128..255 (else they test nothing)"""
+    from gen import dexgen as G
+    cs = [c for c in all_cases() if c[0] in ("string", "type", "field", "method") and c[2] == 1 and "150" in repr(c[1])]
+    _, lay = G.build(build(cs), return_layout=True)
+    P = lay["pools"]
+    idx = {"string": P.sidx["Lm/T150;"], "type": P.tidx["Lm/T150;"], "field": P.fidx[("Lm/T000;", "g150", "I")],
+           "method": P.midx[("Lm/T000;", "h150", "V", ())]}
+    bad = {k: v for k, v in idx.items() if not 128 <= v <= 255}
+    return ("mid-padding reference cases do not have one-byte indices with the top bit set: %r" % bad) if bad else None
+
+
 def shared_cases():
     """two classes whose static_values are byte-identical and therefore share ONE encoded_array_item (as dx/d8 emit it):
     (n1, n2, L, order): class P has n1 static int fields, class Q has n2, the shared array has L <= min(n1, n2) values"""
@@ -452,6 +469,9 @@ def run_shard(ctx, shard):
     acc = Acc()
     i, short = shard
     if i == "ftypes":
+        m = mid_indices_ok()
+        if m:
+            acc.harness_error(m)
         for order in (0, 1):
             res = judge_ftypes(order)
             for k, (ft, kind, v) in enumerate(FT_CASES):
